@@ -63,6 +63,7 @@ static int g_nsig;
 static char g_viol[VS_MAXVIOL][VS_VIOLLEN];
 static int g_nviol;
 
+static int g_nth_fn = -1, g_nth_left = -1;  // fail the n-th call of one function
 static int g_dry_nextfd = 1000;
 static pid_t g_dry_pid = 400000;
 
@@ -131,6 +132,10 @@ static int heap_del(void *p)
   }
   return 0;
 }
+
+// A block the caller allocated itself and hands to the library to own
+// (initial content of a string sink).
+void vs_heap_adopt(void *p, size_t n) { heap_add(p, n); }
 
 size_t vs_heap_live_blocks(void) { return g_heap_blocks; }
 size_t vs_heap_live_bytes(void) { return g_heap_bytes; }
@@ -232,6 +237,8 @@ void vs_reset(void)
   g_nviol = 0;
   g_side = VS_PARENT;
   g_dry_nextfd = 1000;
+  g_nth_fn = -1;
+  g_nth_left = -1;
   memset(&vs_counts, 0, sizeof(vs_counts));
 }
 
@@ -263,6 +270,24 @@ void vs_reset_light(void)
   g_nviol = 0;
   g_side = VS_PARENT;
   memset(&vs_counts, 0, sizeof(vs_counts));
+}
+
+void vs_fail_nth(int fn, int n)
+{
+  g_nth_fn = fn;
+  g_nth_left = n;
+}
+
+static int nth_hit(int fn)
+{
+  if (g_side != VS_PARENT || fn != g_nth_fn || g_nth_left < 0) {
+    return 0;
+  }
+  if (g_nth_left-- == 0) {
+    g_nth_fn = -1;
+    return 1;
+  }
+  return 0;
 }
 
 void vs_trace(int on) { g_trace = on; }
@@ -390,7 +415,7 @@ void *vs_realloc(void *old, size_t n)
   struct vs_fault *f = fault_point(VS_REALLOC, &fidx);
   struct vs_rec *r =
       rec_begin(VS_REALLOC, (int64_t) (intptr_t) old, (int64_t) n, 0, fidx, 0);
-  if (f) {
+  if (f || nth_hit(VS_REALLOC)) {
     r->faulted = 1;
     errno = ENOMEM;
     FINISH(r, 0);
